@@ -134,7 +134,7 @@ M=[
                     }""",["C12"]),
  ("M40-tx-index-key-one-byte","src/db/brc20_prog_database.rs","        ((block_number as u128) << 64) | tx_idx as u128","        ((block_number as u128) << 64) | (tx_idx as u8) as u128",["C06","C01","C02"]),
  ("M41-log-index-one-byte","src/engine/engine.rs","                self.last_block_info.read().log_index,\n                inscription_id,","                self.last_block_info.read().log_index & 0xff,\n                inscription_id,",["C06","C18"]),
- ("M42-block-key-two-bytes","src/db/brc20_prog_database.rs","        ((block_number as u128) << 64) | tx_idx as u128","        (((block_number as u16) as u128) << 64) | tx_idx as u128",["C01","C03"]),
+ ("M42-block-key-two-bytes","src/db/brc20_prog_database.rs","        ((block_number as u128) << 64) | tx_idx as u128","        (((block_number as u16) as u128) << 64) | tx_idx as u128",["C06"]),  # needs TIER=thorough: two transaction-bearing stretches 2^16 blocks apart
 ]
 def sh(cmd, **kw):
     return subprocess.run(cmd, shell=True, capture_output=True, text=True, **kw)
@@ -154,7 +154,7 @@ def main():
             r={}
             for c in checks:
                 t=time.time()
-                p=sh("cd /verif && VERIF_EVIDENCE=/verif/out/selftest-evidence ./check %s quick"%c)
+                p=sh("cd /verif && VERIF_EVIDENCE=/verif/out/selftest-evidence ./check %s %s"%(c, os.environ.get("TIER","quick")))
                 out=p.stdout
                 sigs=[l.split('signature=')[-1].rstrip(']') for l in out.splitlines() if 'signature=' in l and 'KNOWN-FINDING' not in l]
                 r[c]={"exit":p.returncode,"caught":p.returncode==1 and 'VIOLATION' in out,"signatures":sigs[:4],"secs":round(time.time()-t)}
